@@ -87,8 +87,26 @@ func QRstep(H, U Matrix, p, q int, inSitu *InSitu) {
   t2 := inSitu.T2
   t3 := inSitu.T3
 
-  // shift
+  // Wilkinson shift: eigenvalue of the trailing 2x2 block [a b; c d] closer
+  // to d (the plain Rayleigh shift d does not converge if a == d); fall back
+  // to d if the eigenvalues of the block are complex
   t3.Set(H22.At(n-1, n-1))
+  if n >= 2 {
+    t1.Sub(H22.At(n-2, n-2), H22.At(n-1, n-1))
+    t1.Div(t1, ConstFloat64(2.0))              // delta = (a - d)/2
+    t2.Mul(H22.At(n-2, n-1), H22.At(n-1, n-2)) // b c
+    c .Mul(t1, t1)
+    c .Add(c , t2)                             // delta^2 + b c
+    if c.GetFloat64() >= 0.0 && t2.GetFloat64() != 0.0 {
+      c.Sqrt(c)
+      if t1.GetFloat64() < 0.0 {
+        c.Neg(c)
+      }
+      c .Add(t1, c)                            // delta + sign(delta) sqrt(delta^2 + b c)
+      c .Div(t2, c)
+      t3.Sub(t3, c)                            // d - b c/(delta + sign(delta) sqrt(delta^2 + b c))
+    }
+  }
   for i := 0; i < n; i++ {
     g := H22.At(i, i)
     g.Sub(g, t3)
